@@ -168,8 +168,8 @@ def sync_loop(mx, jit, nconn, seed, nlisteners=1):
 def real_run(wk, mx, jit, mode, nreq, seed):
     rng = _random.Random(seed)
     args = ["--max-requests", str(mx), "--max-requests-jitter", str(jit), "--graceful-timeout", "5", "--keep-alive", "2"]
-    nworkers = 2
-    s = rp.Server(wk, workers=nworkers, threads=2 if wk == "gthread" else None, args=args, name="c18")
+    nworkers = 1 if mode == "burst" else 2
+    s = rp.Server(wk, workers=nworkers, threads=(1 if mode == "burst" else 2) if wk == "gthread" else None, args=args, name="c18")
     pids = {}
     ev = []
     lock = threading.Lock()
@@ -201,6 +201,15 @@ def real_run(wk, mx, jit, mode, nreq, seed):
                 one("/pid")
                 if rng.random() < 0.2:
                     time.sleep(0.05)
+        elif mode == "burst":
+            # more requests than handler threads arrive before the limit is reached: those queued for a thread are
+            # in flight when the worker stops accepting
+            allow = nreq
+            ths = [threading.Thread(target=one, args=("/sleep?t=0.5",)) for _ in range(nreq)]
+            for t in ths:
+                t.start()
+                time.sleep(0.05)
+            [t.join() for t in ths]
         else:
             conc = 3
             allow = conc          # requests of the other clients may already be in flight
@@ -212,7 +221,7 @@ def real_run(wk, mx, jit, mode, nreq, seed):
         ev.append({"e": "end", "alive": sorted(alive), "initial": sorted(pid_id(p) for p in initial)})
         tr = {"max": mx, "jit": jit, "allow": allow, "workers": nworkers, "npids": max(len(pids), 1),
               "initial": sorted(pid_id(p) for p in initial), "ev": ev}
-        return tr, {"where": "real", "wk": wk, "mode": mode, "nreq": nreq,
+        return tr, {"where": "real-burst" if mode == "burst" else "real", "wk": wk, "mode": mode, "nreq": nreq,
                     "fails": [e.get("why") for e in ev if e.get("e") == "resp" and not e["ok"]][:3]}
     finally:
         s.cleanup()
@@ -242,8 +251,10 @@ def c18(ctx):
                 t, m = sync_loop(mx, jit, 12, rng.randrange(10 ** 6), nlisteners=nl)
                 traces.append(t)
                 metas.append(m)
-    plan = [("sync", 3, 0, "seq", 14), ("gthread", 3, 0, "seq", 14), ("gevent", 3, 0, "seq", 14), ("sync", 0, 0, "seq", 10)]
+    plan = [("sync", 3, 0, "seq", 14), ("gthread", 3, 0, "seq", 14), ("gevent", 3, 0, "seq", 14), ("sync", 0, 0, "seq", 10),
+            ("gthread", 3, 0, "burst", 4)]     # the start-up probe is the worker's first request
     if not ctx.quick:
+        plan += [("sync", 3, 0, "burst", 4), ("gevent", 3, 0, "burst", 4), ("eventlet", 3, 0, "burst", 4), ("gthread", 2, 0, "burst", 3)]
         plan += [(wk, mx, jit, mode, 24) for wk in ("sync", "gthread", "gevent", "eventlet")
                  for (mx, jit) in ((1, 0), (2, 1), (4, 2), (0, 0)) for mode in ("seq", "conc")]
     results = [None] * len(plan)
@@ -254,7 +265,7 @@ def c18(ctx):
             results[i] = real_run(wk, mx, jit, mode, n, ctx.seed * 100 + i)
         except Exception as e:   # noqa  (machinery)
             results[i] = e
-    par = 4
+    par = 5
     for base in range(0, len(plan), par):
         ths = [threading.Thread(target=runner, args=(i,)) for i in range(base, min(base + par, len(plan)))]
         [t.start() for t in ths]
